@@ -607,10 +607,31 @@ def perturbed(glob=0, shift=0.0, vclock=False):
             return real_time() + shift
     _time.time = now
     _time.time_ns = lambda: int(now() * 1e9)
+    # uninitialised memory: the buffers allocate with np.empty; its content is whatever the heap held.  The
+    # harness owns that source too: inside the replay-buffer module np.empty returns memory filled with a value
+    # that depends on the perturbation, so a result that reads a never-written slot differs between the runs
+    from rl_blox.blox import replay_buffer as _rb
+
+    real_np = _rb.np
+    fill = 1000.0 + (glob % 997) + 0.25
+
+    class _Np:
+        def __getattr__(self, name):
+            return getattr(real_np, name)
+
+        @staticmethod
+        def empty(shape, dtype=float, **kw):
+            a = real_np.empty(shape, dtype=dtype, **kw)
+            if a.size:
+                a[...] = real_np.asarray(fill).astype(a.dtype)
+            return a
+
+    _rb.np = _Np()
     try:
         yield
     finally:
         _time.time, _time.time_ns = real_time, real_ns
+        _rb.np = real_np
 
 
 def run_jobs(jobs, perturb):
